@@ -1,5 +1,122 @@
 import Cellml.Basic.Sexp
-/-! Channel C10 of the model driver (stub: not built yet). -/
+import Cellml.Model.Roles
+
+/-! Channel C10: one history per request.
+    `(C10 (ops op…))` with `op` = `(addVar "name" init|none)`, `(rmVar id)`, `(addEq tok lhs rhs bare)`, `(rmEq tok)`,
+    `(graph)`, `(check)`, `(skip)`; `lhs` = `(var i)` | `(deriv s t order)` | `(other)`; `rhs` = `(n p/q)` | `(v i)` |
+    `(d s t)` | `(+ a b)` | `(- a b)` | `(* a b)` | `(/ a b)` | `(^ a n)` | `(opq node…)`.
+    Reply: one entry per op: `ok` / `(err Class)` for a call, and for `(check)` all role queries and `get_value` of every
+    variable of the model. A check reads the graph (as `get_derivatives` does), so the state goes on with the cache
+    filled and the `type` fields written. -/
 namespace C10
-def handle (_args : List Sexp) : Sexp := .atom "not-implemented"
+open Sexp Model
+
+def node? : Sexp → Option Node
+  | .list [.atom "v", i] => do some (.var (← nat? i))
+  | .list [.atom "d", s, t] => do some (.deriv (← nat? s) (← nat? t))
+  | _ => none
+
+def binOp? : String → Option BinOp
+  | "+" => some .add | "-" => some .sub | "*" => some .mul | "/" => some .div | _ => none
+
+partial def expr? : Sexp → Option Expr
+  | .list [.atom "n", q] => do some (.num (← rat? q))
+  | .list [.atom "v", i] => do some (.var (← nat? i))
+  | .list [.atom "d", s, t] => do some (.deriv (← nat? s) (← nat? t))
+  | .list [.atom "^", a, n] => do some (.pow (← expr? a) (← int? n))
+  | .list (.atom "opq" :: rs) => do some (.opaque (← rs.mapM node?))
+  | .list [.atom o, a, b] => do some (.bin (← binOp? o) (← expr? a) (← expr? b))
+  | _ => none
+
+def lhs? : Sexp → Option Lhs
+  | .list [.atom "var", i] => do some (.var (← nat? i))
+  | .list [.atom "deriv", s, t, o] => do some (.deriv (← nat? s) (← nat? t) (← nat? o))
+  | .list [.atom "other"] => some .other
+  | _ => none
+
+def optRat? : Sexp → Option (Option Rat)
+  | .atom "none" => some none
+  | e => (rat? e).map some
+
+/-- the equations seen so far in this history: token ↦ equation and right-hand side -/
+abbrev Table := List (Nat × Eqn × Expr)
+
+def rhsOf (tbl : Table) (tok : Nat) : Expr :=
+  match tbl.lookup tok with
+  | some (_, r) => r
+  | none => .opaque []
+
+inductive Cmd | op (o : Op) | check | skip
+
+def cmd? (tbl : Table) : Sexp → Option (Cmd × Table)
+  | .list [.atom "addVar", .str n, i] => do some (.op (.addVariable n none (← optRat? i)), tbl)
+  | .list [.atom "rmVar", v] => do some (.op (.removeVariable (← nat? v)), tbl)
+  | .list [.atom "addEq", t, l, r, b] => do
+      let rhs ← expr? r
+      let refs := rhs.nodes.eraseDups
+      let e : Eqn := ⟨← nat? t, ← lhs? l, refs, refs, b == .atom "true"⟩
+      some (.op (.addEquation e), (e.tok, e, rhs) :: tbl)
+  | .list [.atom "rmEq", t] => do
+      let k ← nat? t
+      some (.op (.removeEquation (((tbl.lookup k).map (·.1)).getD ⟨k, .other, [], [], false⟩)), tbl)
+  | .list [.atom "graph"] => some (.op .qGraphNum, tbl)
+  | .list [.atom "check"] => some (.check, tbl)
+  | .list [.atom "skip"] => some (.skip, tbl)
+  | _ => none
+
+def ofOutcome : Outcome → Sexp
+  | .ok => .atom "ok"
+  | .raised .valueError => .list [.atom "err", .atom "ValueError"]
+  | .raised .keyError => .list [.atom "err", .atom "KeyError"]
+  | .raised (.graphError _) => .list [.atom "err", .atom "GraphError"]
+  | .raised .notInModel => .list [.atom "err", .atom "NotInModel"]
+  | .raised .cmetaFuel => .list [.atom "err", .atom "CmetaFuel"]
+
+def ofVErr : VErr → Sexp
+  | .noDefinition => .atom "noDefinition"
+  | .noInit => .atom "noInit"
+  | .fuel => .atom "fuel"
+  | .arith => .atom "arith"
+  | .unsupported => .atom "unsupported"
+
+def ofOpt {α} (f : α → Sexp) : Option α → Sexp
+  | some x => f x
+  | none => .atom "none"
+
+def snapshot (M : RModel) : Sexp :=
+  let s := M.st
+  .list [
+    .list (.atom "vars" :: s.live.map ofNat),
+    .list (.atom "states" :: (stateVars M).map ofNat),
+    .list (.atom "unsorted" :: (stateKeys s).map ofNat),
+    .list [.atom "free", ofOpt ofNat (freeVar M)],
+    (match derivatives M with
+     | .ok l => .list (.atom "derivs" :: .atom "ok" :: l.map fun (a, b) => .list [ofNat a, ofNat b])
+     | .error _ => .list [.atom "derivs", .atom "err"]),
+    (match derivedQuantities M with
+     | .ok l => .list (.atom "derived" :: .atom "ok" :: l.map ofNat)
+     | .error _ => .list [.atom "derived", .atom "err"]),
+    .list (.atom "is_state" :: (s.live.filter (isState M)).map ofNat),
+    .list (.atom "is_const" :: (s.live.filter (isConstant M)).map ofNat),
+    .list (.atom "values" :: s.live.map fun v =>
+      match getValue M v with
+      | .ok q => .list [ofNat v, .atom "ok", ofRat q]
+      | .error e => .list [ofNat v, .atom "err", ofVErr e])]
+
+def runOps : MState → Table → List Sexp → List Sexp → List Sexp
+  | _, _, [], acc => acc.reverse
+  | s, tbl, o :: os, acc =>
+    match cmd? tbl o with
+    | none => runOps s tbl os (.atom "bad-op" :: acc)
+    | some (.skip, _) => runOps s tbl os (.atom "skip" :: acc)
+    | some (.check, _) => runOps (queryGraph s).1 tbl os (snapshot ⟨s, rhsOf tbl⟩ :: acc)
+    | some (.op op, tbl') =>
+      let (s1, out) := step s op
+      runOps s1 tbl' os (ofOutcome out :: acc)
+
+def handle (args : List Sexp) : Sexp :=
+  match args with
+  | [.list (.atom "ops" :: ops)] => .list (runOps (init none) [] ops [])
+  | _ => .atom "bad-request"
+
 end C10
